@@ -1,3 +1,107 @@
 package main
 
-func workerMain(args []string) {}
+import (
+	"bufio"
+	"encoding/hex"
+	"fmt"
+	"os"
+	"runtime"
+	"runtime/debug"
+	"strconv"
+	"strings"
+	"time"
+
+	psa "github.com/veraison/psatoken"
+	"github.com/veraison/psatoken/encoding"
+)
+
+// decodeOnly runs decoding entry point e on buf — the decode alone, which is what C06 bounds.
+func decodeOnly(e int, in []byte) error {
+	switch e {
+	case 0:
+		_, err := psa.DecodeEvidenceFromCOSE(in)
+		return err
+	case 1:
+		_, err := psa.DecodeClaimsFromCBOR(in)
+		return err
+	case 2:
+		_, err := psa.DecodeClaimsFromJSON(in)
+		return err
+	case 3:
+		c, _ := psa.NewClaims(psa.Profile1Name)
+		return c.(*psa.P1Claims).UnmarshalCBOR(in)
+	case 4:
+		c, _ := psa.NewClaims(psa.Profile2Name)
+		return c.(*psa.P2Claims).UnmarshalCBOR(in)
+	case 5:
+		c, _ := psa.NewClaims(psa.Profile1Name)
+		return c.(*psa.P1Claims).UnmarshalJSON(in)
+	case 6:
+		c, _ := psa.NewClaims(psa.Profile2Name)
+		return c.(*psa.P2Claims).UnmarshalJSON(in)
+	case 7:
+		return encoding.PopulateStructFromCBOR(extDM, in, &ShTwo{})
+	case 8:
+		return encoding.PopulateStructFromJSON(in, &ShTwo{})
+	case 9:
+		c := ExtProfile{Name: extName(0), Base: 2}.GetClaims()
+		return c.(*ExtP2Claims).UnmarshalCBOR(in)
+	case 10:
+		c := ExtProfile{Name: extName(0), Base: 1}.GetClaims()
+		return c.(*ExtP1Claims).UnmarshalJSON(in)
+	case 11:
+		return encoding.VerifNewOrderedMapCBOR().FromCBOR(extDM, in)
+	case 12:
+		return encoding.VerifNewOrderedMapJSON().FromJSON(in)
+	case 13:
+		ev := &psa.Evidence{}
+		return ev.UnmarshalCOSE(in)
+	}
+	return fmt.Errorf("no such entry")
+}
+
+// workerMain: the single-goroutine measuring worker of C06. One request per line on stdin
+// ("<entry> <hex>"), one reply per line on stdout ("<ok|err|panic> <bytes allocated> <nanoseconds>").
+// The parent runs it under an address-space limit; a fatal out-of-memory error kills this
+// process only, and the parent knows which input it had just sent.
+func workerMain(args []string) {
+	debug.SetGCPercent(-1) // no background collection between the two readings
+	in := bufio.NewReaderSize(os.Stdin, 1<<20)
+	out := bufio.NewWriter(os.Stdout)
+	var m0, m1 runtime.MemStats
+	n := 0
+	for {
+		line, err := in.ReadString('\n')
+		if line == "" && err != nil {
+			return
+		}
+		f := strings.Fields(line)
+		if len(f) < 1 {
+			continue
+		}
+		e, _ := strconv.Atoi(f[0])
+		var buf []byte
+		if len(f) > 1 {
+			buf, _ = hex.DecodeString(f[1])
+		}
+		res := "ok"
+		runtime.ReadMemStats(&m0)
+		t0 := time.Now()
+		pan, _ := safely(func() {
+			if decodeOnly(e, buf) != nil {
+				res = "err"
+			}
+		})
+		dt := time.Since(t0)
+		runtime.ReadMemStats(&m1)
+		if pan {
+			res = "panic"
+		}
+		fmt.Fprintf(out, "%s %d %d\n", res, m1.TotalAlloc-m0.TotalAlloc, dt.Nanoseconds())
+		out.Flush()
+		n++
+		if n%64 == 0 || m1.HeapAlloc > 256<<20 {
+			runtime.GC()
+		}
+	}
+}
